@@ -145,9 +145,12 @@ def main(argv=None):
     if not jobs:
         print('no functions under contract selected for', a.prop)
         return 3
+    import concurrent.futures
     ctx = multiprocessing.get_context('fork')
-    with ctx.Pool(min(a.jobs, len(jobs)), maxtasksperchild=1) as pool:
-        results = pool.map(_run_one, jobs, chunksize=1)
+    nw = min(a.jobs, len(jobs))
+    opts['solve_procs'] = max(2, (2 * a.jobs) // max(1, len(jobs)))
+    with concurrent.futures.ProcessPoolExecutor(nw, mp_context=ctx) as pool:
+        results = list(pool.map(_run_one, jobs))
     findings = load_findings()
     violations, known_hit, undecided, errors = [], [], [], []
     n_obl = n_dis = 0
